@@ -131,9 +131,18 @@ fn expobs_str(o: &ExpObs) -> String {
 }
 
 /// Where a transition sits: how to reach the state it starts from.
-pub struct Origin<'a> {
-    pub root: &'a str,
-    pub prefix: &'a [String],
+pub enum Origin<'a> {
+    Fixed { root: &'a str, prefix: &'a [String] },
+    /// computed only when a violation has to be written out
+    Lazy(&'a (dyn Fn() -> (String, Vec<String>) + Sync)),
+}
+impl Origin<'_> {
+    pub fn get(&self) -> (String, Vec<String>) {
+        match self {
+            Origin::Fixed { root, prefix } => (root.to_string(), prefix.to_vec()),
+            Origin::Lazy(f) => f(),
+        }
+    }
 }
 
 pub struct StepOut {
@@ -203,7 +212,7 @@ pub fn step(cfg: &Cfg, part: &mut Part, seen: &Seen, level: Level, org: &Origin,
     let res = guard(|| apply(x.clone(), a));
     part.transitions += 1;
     let mk = |what: &str, expected: String, observed: String, check: &str| -> Violation {
-        let mut ops: Vec<String> = org.prefix.to_vec();
+        let (root, mut ops) = org.get();
         ops.push(a.show());
         Violation {
             op: a.op_name(),
@@ -212,7 +221,7 @@ pub fn step(cfg: &Cfg, part: &mut Part, seen: &Seen, level: Level, org: &Origin,
             form: a.form_name().unwrap_or("-").to_string(),
             flags: flags(x, m, a),
             what: what.to_string(),
-            root: org.root.to_string(),
+            root,
             ops,
             check: check.to_string(),
             expected,
@@ -260,6 +269,9 @@ pub fn step(cfg: &Cfg, part: &mut Part, seen: &Seen, level: Level, org: &Origin,
                 }
             }
             bad |= check_vector(part, seen, level, &y, &em, &mk, "");
+            if cfg.prop == "C18" {
+                bad |= capacity_postconditions(part, x, &y, a, &mk);
+            }
             if !bad && !part.has_sample(&a.op_name()) {
                 part.sample(
                     &a.op_name(),
@@ -272,6 +284,39 @@ pub fn step(cfg: &Cfg, part: &mut Part, seen: &Seen, level: Level, org: &Origin,
     }
 }
 
+/// C18: what reserve / shrink_to_fit promise about capacity, and mode-switch counters.
+fn capacity_postconditions(part: &mut Part, x: &AnyBv, y: &AnyBv, a: &Act, mk: &dyn Fn(&str, String, String, &str) -> Violation) -> bool {
+    let mut bad = false;
+    if y.kind() == K::A {
+        let (m0, m1) = (x.raw().mode, y.raw().mode);
+        if m0 == 0 && m1 == 1 {
+            part.count("auto_switch_inline_to_heap", 1);
+        }
+        if m0 == 1 && m1 == 0 {
+            part.count("auto_switch_heap_to_inline", 1);
+        }
+    }
+    match a {
+        Act::Reserve(k) => {
+            if y.capacity() < y.len() + k {
+                part.violation(mk("reserve_capacity_too_small", format!("capacity >= {}", y.len() + k), format!("capacity = {}", y.capacity()), "state"));
+                bad = true;
+            }
+            part.count("reserve_postcondition_checked", 1);
+        }
+        Act::ShrinkToFit => {
+            let f = fresh(y.kind(), &y.bits());
+            if y.capacity() > f.capacity() {
+                part.violation(mk("shrink_leaves_excess_capacity", format!("capacity <= {}", f.capacity()), format!("capacity = {}", y.capacity()), "state"));
+                bad = true;
+            }
+            part.count("shrink_postcondition_checked", 1);
+        }
+        _ => {}
+    }
+    bad
+}
+
 /// Replay a root + action list outside any explorer; returns the violations found.
 pub fn replay_ops(cfg: &Cfg, root: &str, ops: &[String]) -> Result<Part, String> {
     let vo = Vo::parse(root).ok_or_else(|| format!("cannot parse root {}", root))?;
@@ -282,7 +327,7 @@ pub fn replay_ops(cfg: &Cfg, root: &str, ops: &[String]) -> Result<Part, String>
     for (i, o) in ops.iter().enumerate() {
         let a = Act::parse(o).ok_or_else(|| format!("cannot parse op {}", o))?;
         let m = x.bits();
-        let org = Origin { root, prefix: &prefix };
+        let org = Origin::Fixed { root, prefix: &prefix };
         let out = step(cfg, &mut part, &seen, Level::Full, &org, &x, &m, &a);
         println!("  step {}: {}  -> {}", i, o, if out.violated { "VIOLATES" } else { "ok" });
         match out.next {
